@@ -190,6 +190,9 @@ PARSED_SELECTORS = [
     ('[type=ab s]', False, False), ('[TYPE="Ab" s]', True, False), ('Ab[tT="Ab"]', True, False), ('AB[TT="Ab"]', True, True),
     ('[viewBox]', True, None), ('[viewbox]', True, None), ('[VIEWBOX]', True, None), ('lineargradient', True, None),
     ('linearGradient', True, None), ('[gradientunits=u]', True, None), ('[GradientUnits="u"]', True, None),
+    ('[*|viewBox]', True, None), ('[*|viewbox]', True, None), ('[*|VIEWBOX]', True, None), ('[|viewbox]', True, None),
+    ('[*|gradientunits="u"]', True, None), ('[|GRADIENTUNITS=U i]', True, None), ('[*|tt=Ab]', True, False), ('[*|TT]', True, True),
+    ('*|ab', True, False), ('*|AB[*|tt]', True, False), ('*|lineargradient', True, None), ('[*|Type=ab]', True, False),
 ]
 
 
